@@ -410,7 +410,14 @@ def rule_once(run):
                 r = compare(guards[0].test, '0.0 < blk.volume < atmos_volume')
                 if r == 'equal': run.ok(k3, where=fi.where(guards[0]))
                 elif r == 'different': run.violated(k3, 'guard is `%s`: boundary blocks are exported as cells or interior blocks are dropped' % norm(guards[0].test), where=fi.where(guards[0]))
-                else: run.unknown(k3, norm(guards[0].test), where=fi.where(guards[0]))
+                else:
+                    # same shape with another threshold than the `atmos_volume` the caller passes (and boundaries_json() uses)?
+                    t_ = guards[0].test
+                    if isinstance(t_, ast.Compare) and len(t_.ops) == 2 and norm(t_.comparators[0]) == 'blk.volume' and 'atmos_volume' in fi.params \
+                       and norm(t_.comparators[1]) != 'atmos_volume' and isinstance(t_.comparators[1], (ast.Attribute, ast.Constant)):
+                        run.violated(k3, 'the upper limit is `%s`, not the `atmos_volume` argument that boundaries_json() applies to the same blocks: when the two '
+                                     'differ a block is exported both as a cell and as a boundary, or as neither' % norm(t_.comparators[1]), where=fi.where(guards[0]), robust=True)
+                    else: run.unknown(k3, norm(guards[0].test), where=fi.where(guards[0]))
             else:
                 run.violated(k3, '%d guards around the append' % len(guards), where=fi.where(a))
         # rock index built for every rock type, in list order
